@@ -65,6 +65,9 @@ SPECS["C09"] = dict(
     assumptions=BUF_ASSUME,
     overlay=["verifx/c09", "verifx/vio", "verifx/ringm"],
     jobs=[
+        dict(name="c09-fuzz", pkg="./verifx/c09", fuzz="FuzzC09Ring", thorough_only=True, tests=[
+            dict(id="fuzz", run="^FuzzC09Ring$", fuzz=True, thorough=dict(fuzztime=90, workers=8, timeout=400)),
+        ]),
         dict(name="c09", pkg="./verifx/c09", tests=[
             dict(id="machine", run="^TestC09Machine$", quick=dict(shards=10, checks=12000, timeout=240, steps=40),
                  thorough=dict(shards=16, checks=60000, timeout=1500, steps=60, shrinktime=120)),
@@ -84,6 +87,9 @@ SPECS["C11"] = dict(
     assumptions=BUF_ASSUME + ["Len counts one segment per push and one per reader call that returned bytes (segment boundaries are observable through Pop)"],
     overlay=["verifx/c11", "verifx/vio"],
     jobs=[
+        dict(name="c11-fuzz", pkg="./verifx/c11", fuzz="FuzzC11List", thorough_only=True, tests=[
+            dict(id="fuzz", run="^FuzzC11List$", fuzz=True, thorough=dict(fuzztime=90, workers=8, timeout=400)),
+        ]),
         dict(name="c11", pkg="./verifx/c11", tests=[
             dict(id="machine", run="^TestC11Machine$", quick=dict(shards=12, checks=12000, timeout=240, steps=40),
                  thorough=dict(shards=16, checks=120000, timeout=1500, steps=60, shrinktime=120)),
@@ -101,6 +107,9 @@ SPECS["C10"] = dict(
     assumptions=BUF_ASSUME,
     overlay=["verifx/c10", "verifx/vio", "verifx/ringm"],
     jobs=[
+        dict(name="c10-fuzz", pkg="./verifx/c10", fuzz="FuzzC10Mixed", thorough_only=True, tests=[
+            dict(id="fuzz", run="^FuzzC10Mixed$", fuzz=True, thorough=dict(fuzztime=90, workers=8, timeout=400)),
+        ]),
         dict(name="c10", pkg="./verifx/c10", tests=[
             dict(id="mixed", run="^TestC10Mixed$", quick=dict(shards=10, checks=6000, timeout=300, steps=40),
                  thorough=dict(shards=16, checks=60000, timeout=1800, steps=60, shrinktime=120)),
@@ -165,6 +174,9 @@ SPECS["C16"] = dict(
     assumptions=["'?' and '#' are not generated inside well-formed unix paths (URL syntax gives them another meaning)", "option values above 2^62 are outside the domain (no power of two fits an int)"],
     overlay=ROOT_OVERLAY,
     jobs=[
+        dict(name="c16-fuzz", pkg=".", fuzz="FuzzC16Parse", thorough_only=True, tests=[
+            dict(id="fuzz", run="^FuzzC16Parse$", fuzz=True, thorough=dict(fuzztime=90, workers=8, timeout=400)),
+        ]),
         dict(name="c16", pkg=".", tests=[
             dict(id="wellformed", run="^TestC16ParseWellFormed$", quick=dict(shards=4, checks=40000, timeout=300), thorough=dict(shards=8, checks=500000, timeout=1500)),
             dict(id="illformed", run="^TestC16ParseIllFormed$", quick=dict(shards=2, checks=30000, timeout=300), thorough=dict(shards=4, checks=300000, timeout=1500)),
